@@ -90,6 +90,24 @@ Print Assumptions unquotes_not_tail.
 Example ex_tails : unq_tails true (VArr [VList [VSym sym_unquote; VSym 10]; VList [VSym sym_splice; VSym 11]]) = [false; false].
 Proof. vm_compute. reflexivity. Qed.
 
+(* the loader's comment filter (comment.go FilterAny/FilterList, run over every loaded form):
+   after it no list or array, at any depth and whatever its head (syntaxQuote included), has a
+   comment element; a form without comments is unchanged.  So the template the generator sees
+   is the template as written, minus comments -- the runner applies [strip] to the reader's raw
+   output before gen_sq and before the comparison with [reify] *)
+Theorem loader_strips_comments : forall v, clean (strip v) = true.
+Proof. exact strip_clean. Qed.
+Print Assumptions loader_strips_comments.
+
+Theorem loader_keeps_comment_free_forms : forall v, clean v = true -> strip v = v.
+Proof. exact strip_id. Qed.
+Print Assumptions loader_keeps_comment_free_forms.
+
+Example ex_strip :
+  strip (VList [VSym 40; VList [VSym 41; VOpq comment_code; VSym 20]; VOpq comment_code; VArr [VOpq comment_code]])
+  = VList [VSym 40; VList [VSym 41; VSym 20]; VArr []].
+Proof. vm_compute. reflexivity. Qed.
+
 (* outside the property (a splice that is not inside a container): all elements are left *)
 Theorem bare_splice_pushes_all : forall rho e S,
     run rho (gen_sq (reify (TSpl e))) S =
@@ -116,22 +134,38 @@ Theorem param_is_argument_form : forall eval_in,
 Proof. exact TemplProofs.param_is_argument_form. Qed.
 Print Assumptions param_is_argument_form.
 
-Theorem macro_call_is_expansion : forall eval_in generate other_call macros st s args m e,
+Theorem macro_call_is_expansion : forall eval_in gctx generate other_call macros (ctx : gctx) st s args m e,
     macros s = Some m ->
     expand_in eval_in (duplicate st) m args = Some e ->
-    gen_call eval_in generate other_call macros st s args = (st, generate e).
+    gen_call eval_in gctx generate other_call macros ctx st s args = (st, generate ctx e).
 Proof. exact TemplProofs.macro_call_is_expansion. Qed.
 Print Assumptions macro_call_is_expansion.
 
-Theorem expansion_isolated : forall eval_in generate other_call macros st s args,
-    fst (gen_call eval_in generate other_call macros st s args) = st.
+(* the code of a macro call is the code -- in the SAME generator context ctx (scopes to leave for
+   break/continue/tail jumps, Tail, funcname ..) -- of the body's template substituted with the
+   argument forms and the caller's CURRENT global scope: recomputed at every call *)
+Theorem macro_call_is_substitution : forall eval_in gctx generate other_call macros (ctx : gctx) st s args m,
+    macros s = Some m ->
+    length args = length (m_params m) ->
+    wf (m_body m) = true -> is_splice (m_body m) = false ->
+    hshort (macro_rho eval_in (duplicate st) m args) (m_body m) = true ->
+    gen_call eval_in gctx generate other_call macros ctx st s args =
+    (st, match subst (macro_rho eval_in (duplicate st) m args) (m_body m) with
+         | Ok e => generate ctx e
+         | Err => None
+         end).
+Proof. exact TemplProofs.macro_call_is_substitution. Qed.
+Print Assumptions macro_call_is_substitution.
+
+Theorem expansion_isolated : forall eval_in gctx generate other_call macros (ctx : gctx) st s args,
+    fst (gen_call eval_in gctx generate other_call macros ctx st s args) = st.
 Proof. exact TemplProofs.expansion_isolated. Qed.
 Print Assumptions expansion_isolated.
 
-Theorem expansion_sees_global_scope_only : forall eval_in generate other_call macros st1 st2 s args m,
+Theorem expansion_sees_global_scope_only : forall eval_in gctx generate other_call macros (ctx : gctx) st1 st2 s args m,
     macros s = Some m -> global_of st1 = global_of st2 ->
-    snd (gen_call eval_in generate other_call macros st1 s args) =
-    snd (gen_call eval_in generate other_call macros st2 s args).
+    snd (gen_call eval_in gctx generate other_call macros ctx st1 s args) =
+    snd (gen_call eval_in gctx generate other_call macros ctx st2 s args).
 Proof. exact TemplProofs.expansion_sees_global_scope_only. Qed.
 Print Assumptions expansion_sees_global_scope_only.
 
